@@ -706,7 +706,7 @@ def cursor_attach_table(prog, rep, R):
                 fb = prog.body(norm(fcl)) if fcl else None
                 if fb is not None:
                     try:
-                        ft = Table(prog, fb)
+                        ft = Table(prog, fb, inline=1)
                         # keeps exactly the elements whose token slot is None
                         filtered = sorted((tuple((x[0], x[2]) for x in cons if x[0] == "is"), render(res)) for cons, res in ft.rows) == [((("is", "None"),), "True"), ((("is", "Some"),), "False")]
                     except TooComplex:
